@@ -251,7 +251,7 @@ pub fn canonical() -> Vec<Step> {
 }
 
 pub fn run_pass(steps: &[Step], l: usize, write: bool, pre: &Built, rec: &mut Vec<Obs>, handlers_seen: &mut BTreeSet<String>) -> Option<(String, String)> {
-    let ncfg = NodeCfg { gp: 100, heartbeat: 100, social_stake: 0, loading_completed: true };
+    let ncfg = NodeCfg { gp: 100, heartbeat: 100, social_stake: 0, loading_completed: true, prune: 8 };
     let chain = pre.main_chain_blocks();
     let clock = Arc::new(AtomicU64::new(6_000_000));
     // node under probe: knows the first 2 blocks, connects to the peer which has all of them
